@@ -414,3 +414,108 @@ func ProbeFollowUps() string {
 	}
 	return ""
 }
+
+// oneByteReader delivers the stream one byte per Read; dataErrReader delivers the last bytes together with io.EOF. Both are
+// legal io.Readers for the same byte stream.
+type oneByteReader struct{ r io.Reader }
+
+func (o oneByteReader) Read(p []byte) (int, error) {
+	if len(p) == 0 {
+		return 0, nil
+	}
+	return o.r.Read(p[:1])
+}
+
+type dataErrReader struct {
+	data []byte
+}
+
+func (d *dataErrReader) Read(p []byte) (int, error) {
+	n := copy(p, d.data)
+	d.data = d.data[n:]
+	if len(d.data) == 0 {
+		return n, io.EOF
+	}
+	return n, nil
+}
+
+// ProbeReaders checks every new method that takes an io.Reader: the outcome (error or not, the receiver's value afterwards) may
+// depend on the BYTES of the stream only, not on how the reader cuts them into Read calls - in one piece, one byte at a time, or
+// with the final bytes arriving together with io.EOF. It returns a description of the first difference, or "".
+func ProbeReaders() string {
+	elem, scal := NewMethods()
+	g2 := ref.Double(ref.G())
+	streams := [][]byte{ref.Compress(g2), ref.Uncompressed(g2), {0}, ref.Bytes32(big.NewInt(7)), append(ref.Compress(g2), 1, 2, 3, 4, 5, 6, 7),
+		[]byte(fmt.Sprintf("%x", ref.Compress(g2))), append(ref.Bytes32(big.NewInt(7)), 9, 9, 9)}
+	run := func(recv any, m reflect.Method, rd io.Reader) (ok bool, failed bool, enc []byte) {
+		t := m.Type
+		in := []reflect.Value{reflect.ValueOf(recv)}
+		found := false
+		for i := 1; i < t.NumIn(); i++ {
+			pt := t.In(i)
+			if pt.Kind() == reflect.Interface && typReader.Implements(pt) && !found {
+				in = append(in, reflect.ValueOf(rd))
+				found = true
+				continue
+			}
+			one := reflect.Method{Name: m.Name, Type: reflect.FuncOf([]reflect.Type{t.In(0), pt}, nil, false)}
+			args, _, _, aok := probeArgs(one, 0)
+			if !aok || len(args) != 1 {
+				return false, false, nil
+			}
+			in = append(in, args[0])
+		}
+		if !found {
+			return false, false, nil
+		}
+		var results []reflect.Value
+		panicked := false
+		func() {
+			defer func() {
+				if recover() != nil {
+					panicked = true
+				}
+			}()
+			results = m.Func.Call(in)
+		}()
+		failed = panicked
+		for _, r := range results {
+			if r.IsValid() && r.Type().Implements(reflect.TypeOf((*error)(nil)).Elem()) && !r.IsNil() {
+				failed = true
+			}
+		}
+		switch v := recv.(type) {
+		case *secp256k1.Element:
+			enc = v.Encode()
+		case *secp256k1.Scalar:
+			enc = v.Encode()
+		}
+		return true, failed, enc
+	}
+	check := func(mk func() any, m reflect.Method, typ string) string {
+		for _, s := range streams {
+			ok, f0, e0 := run(mk(), m, bytes.NewReader(s))
+			if !ok {
+				return ""
+			}
+			for name, rd := range map[string]io.Reader{"one byte per Read": oneByteReader{bytes.NewReader(s)}, "the last bytes together with io.EOF": &dataErrReader{data: append([]byte(nil), s...)}} {
+				_, f1, e1 := run(mk(), m, rd)
+				if f0 != f1 || !bytes.Equal(e0, e1) {
+					return fmt.Sprintf("%s.%s on the %d-byte stream %x: from a reader that delivers it in one piece it fails=%v and leaves the receiver at %x, from a reader that delivers %s it fails=%v and leaves %x", typ, m.Name, len(s), s, f0, e0, name, f1, e1)
+				}
+			}
+		}
+		return ""
+	}
+	for _, m := range elem {
+		if msg := check(func() any { return secp256k1.Base() }, m, "*Element"); msg != "" {
+			return msg
+		}
+	}
+	for _, m := range scal {
+		if msg := check(func() any { return secp256k1.NewScalar().SetUInt64(5) }, m, "*Scalar"); msg != "" {
+			return msg
+		}
+	}
+	return ""
+}
